@@ -74,6 +74,7 @@ type State struct {
 	choices []string // log of concrete choices (vChoice etc.)
 	locks   map[*Object]int
 	trace   []string
+	names   map[string]int // per-path counters for repeated input names (immutable, copied on write)
 }
 
 type fnInfo struct {
@@ -211,7 +212,7 @@ func (e *Engine) newState() *State {
 func (e *Engine) clone(st *State) *State {
 	e.stateSeq++
 	n := &State{id: e.stateSeq, mem: make(map[*Object]*cellBlock, len(st.mem)), status: st.status,
-		model: st.model, atEntry: st.atEntry, retFrame: st.retFrame, steps: st.steps, uncertain: st.uncertain, fail: st.fail, ret: st.ret}
+		model: st.model, atEntry: st.atEntry, retFrame: st.retFrame, steps: st.steps, uncertain: st.uncertain, fail: st.fail, ret: st.ret, names: st.names}
 	for k, v := range st.mem {
 		n.mem[k] = v
 	}
@@ -558,6 +559,20 @@ func (e *Engine) tryMerge(a, b *State) (*State, bool) {
 		}
 	}
 	m := e.clone(a)
+	// input-name counters: take the maximum so later draws are fresh on both sides
+	// (harnesses that draw inputs inside loops give them explicit unique names)
+	if len(b.names) > 0 {
+		nn := make(map[string]int, len(a.names)+len(b.names))
+		for k, v := range a.names {
+			nn[k] = v
+		}
+		for k, v := range b.names {
+			if nn[k] < v {
+				nn[k] = v
+			}
+		}
+		m.names = nn
+	}
 	// locals
 	for i := range m.frames {
 		fa, fb := m.frames[i], b.frames[i]
@@ -669,7 +684,10 @@ func (e *Engine) tryMerge(a, b *State) (*State, bool) {
 	if !disj.IsTrue() {
 		m.pc = append(m.pc, disj)
 	}
-	m.steps = a.steps + b.steps
+	m.steps = a.steps
+	if b.steps > m.steps {
+		m.steps = b.steps
+	}
 	m.uncertain = a.uncertain || b.uncertain
 	if a.model == nil {
 		m.model = b.model
